@@ -217,6 +217,30 @@ def run(ck):
               "a normal return is reached without any of the function's memory-range tests: pointers/lengths outside memory do not trap on that path", f.loc(und[0]) if und else f.loc())
     ck.floor("BOUNDS", "host functions with memory-range tests", nfn, 25)
 
+    # arguments arrive as 32/64-bit values: no host function narrows an argument below 32 bits before using it (a pointer,
+    # length, offset or handle compared or used at 16 bits aliases values that differ by a multiple of 2^16)
+    WID = {"u8": 8, "i8": 8, "u16": 16, "i16": 16, "u32": 32, "i32": 32, "u64": 64, "i64": 64, "usize": 64, "isize": 64}
+    nhf = 0
+    for p in sorted(c.paths()):
+        if not re.search(r"::v[01]::host::[a-z_0-9]+$", p):
+            continue
+        for b in c.get_all(p):
+            f = Fn(b)
+            nhf += 1
+            bad = []
+            for bi in sorted(f.reachable()):
+                for st in f.stmts(bi):
+                    rv = st.get("rv", {})
+                    if rv.get("k") == "cast" and rv.get("ck") == "IntToInt":
+                        src = op_place(rv["a"])
+                        ts = f.locals[src[0]] if src and not src[1] else None
+                        td = rv.get("ty")
+                        if ts in WID and td in WID and WID[td] < 32 and WID[td] < WID[ts] and has_call_origin(f.origins(rv["a"], deep=True), r"pop_u(32|64)$"):
+                            bad.append((ts, td, bi))
+            ck.ob("CMP", p, "arguments-not-narrowed-below-32-bits", not bad, "no argument popped from the stack is narrowed below 32 bits" if not bad else
+                  "an argument is narrowed %s -> %s before use" % (bad[0][0], bad[0][1]), f.loc(bad[0][2]) if bad else f.loc(), nontrivial=False)
+    ck.floor("CMP", "host functions inspected for argument narrowing", nhf, 51)
+
     # a range whose end is clamped to the length of the data being read (end = min(offset + length, data.len())) is not
     # ordered by construction: offset may exceed the length, and data[offset..end] with offset > end panics
     nord = 0
